@@ -23,6 +23,10 @@ func cmdDiscover(args []string) int {
 	}
 	theClosures = buildClosureInfo(p)
 	switch args[0] {
+	case "reachable":
+		writeBaselineReachable(p)
+	case "names":
+		writeBaselineNames(p)
 	case "guard":
 		discoverGuards(p)
 	case "dbglit":
